@@ -32,6 +32,8 @@ type arg struct {
 	N      int64  `json:"n,omitempty"`
 	Plus   bool   `json:"plus,omitempty"`
 	Raw    []byte `json:"raw,omitempty"`
+	// Pad (kind rel): the numbers are zero-padded to this width ("-01d:08h:09m"); still decimal
+	Pad int `json:"pad,omitempty"`
 	// NowRel (kinds int, abs): N resp. T is the clock reading at the start of the run plus Delta;
 	// kind rels: "-<n>s" (Delta <= 0, past) or "--<n>s" (Delta > 0: the sign accepted by
 	// time.ParseDuration makes it a future instant)
@@ -201,6 +203,12 @@ func genRel(r *vhlib.Rand) arg {
 			a.H = vhlib.Pick(r, []int64{1 << 50, 2562048, 1 << 33})
 		}
 	}
+	if r.Chance(30) {
+		a.Pad = 2 + r.Intn(2)
+		if r.Chance(50) {
+			a.D, a.H, a.M = int64(r.Intn(100)), int64(r.Intn(100)), int64(r.Intn(100))
+		}
+	}
 	if a.Syn == 1 && (a.Has == 1 || a.Has == 2 || a.Has == 4) {
 		a.Has |= vhlib.Pick(r, []int{1, 2, 4}) // may stay a single part: then it is the first syntax
 	}
@@ -232,6 +240,7 @@ var curated = []string{
 	"2024-1-02 15:04", "24-01-02 15:04", "+4-01-02 15:04", "0000-01-01 00:00", "9999-12-31 23:59:59", "0069-01-01 00:00",
 	"69-01-01 00:00", "68-12-31 23:59", "00-01-01 00:00", "31-12-99 00:00", "99-12-31 00:00", "12-11-10 09:08", "32-01-02 00:00",
 	"01.02.03 04:05", "1.2.3 4:5", "1.2.03 4:05", "10.11.12 13:14:15 +0000", "10.11.2012 13:14", "\xff\xfe", "2024-01-02 15:04\x00",
+	"-01d:08h:09m", "-0d:010h:030m", "-011d:00h:59m", "-0x1d:1h", "-0b1d:1h", "-0o7d:1h", "-1_0d:1h", "-0X1Fd:0h", "-1d:0x10h", "-1d:1_0m:0b11s", "-08d", "-010d08h09m",
 	"１２３", "-１d", "1e9", " 12", "12 ", "+", "+-1", "-+", "1234567890123456789012345",
 }
 
@@ -325,6 +334,8 @@ func genArg(r *vhlib.Rand, loc int, i int, search bool) arg {
 	}
 }
 
+var padded = [][3]int64{{1, 8, 9}, {0, 10, 30}, {11, 0, 59}, {7, 7, 7}, {9, 9, 9}, {10, 30, 11}, {8, 0, 0}, {0, 0, 19}}
+
 var dstZones = []string{"Europe/Zurich", "America/New_York", "Australia/Lord_Howe"}
 var dstDays = []int64{1, 30, 90, 150, 177, 178, 200, 250, 300, 365, 400}
 
@@ -389,6 +400,12 @@ func gen(r *vhlib.Rand, i int, o vhlib.Opts) any {
 			zone = off
 		}
 		return input{Loc: loc, A: arg{K: "abs", Layout: l, Off: off, T: civ - int64(zone)}}
+	}
+	if g := k - 2*len(layouts) - 120 - len(dstZones)*len(dstDays)*2; g >= 0 && g < len(padded)*4 {
+		// zero-padded components are decimal (08, 09, 010, 030, 011 are not octal)
+		p := padded[g%len(padded)]
+		w := (g / len(padded)) % 2
+		return input{Loc: locs[g%3], A: arg{K: "rel", Syn: 1 - g/(2*len(padded)), Has: 7, D: p[0], H: p[1], M: p[2], Pad: 2 + w}}
 	}
 	if g := k - 2*len(layouts) - 120; g >= 0 && g < len(dstZones)*len(dstDays)*2 {
 		// relative times under zones with DST: X days back is 86400*X seconds, whatever the calendar says
@@ -495,14 +512,15 @@ func render(a arg, loc int) (string, bool) {
 		return time.Unix(a.T, 0).In(time.FixedZone("", zone)).Format(layouts[a.Layout]), true
 	case "rel":
 		var parts []string
+		num := func(v int64) string { return fmt.Sprintf("%0*d", a.Pad, v) }
 		if a.Has&1 != 0 {
-			parts = append(parts, strconv.FormatInt(a.D, 10)+"d")
+			parts = append(parts, num(a.D)+"d")
 		}
 		if a.Has&2 != 0 {
-			parts = append(parts, strconv.FormatInt(a.H, 10)+"h")
+			parts = append(parts, num(a.H)+"h")
 		}
 		if a.Has&4 != 0 {
-			parts = append(parts, strconv.FormatInt(a.M, 10)+"m")
+			parts = append(parts, num(a.M)+"m")
 		}
 		sep := ""
 		if a.Syn == 1 {
@@ -569,7 +587,11 @@ func expectOf(a arg, s string) (string, []string) {
 		if !ok {
 			return "ENone", []string{"rel-outside-domain"}
 		}
-		return "(ERel " + vhlib.CoqZ(d) + ")", []string{fmt.Sprintf("rel-syn%d-has%d", a.Syn, a.Has)}
+		tags := []string{fmt.Sprintf("rel-syn%d-has%d", a.Syn, a.Has)}
+		if a.Pad > 0 {
+			tags = append(tags, "rel-zero-padded")
+		}
+		return "(ERel " + vhlib.CoqZ(d) + ")", tags
 	case "abs":
 		var rs []string
 		amb := false
